@@ -23,6 +23,7 @@
 -/
 import ControlModel.Gen.ServentFacts
 import ControlModel.Proofs.CmdQueue
+import ControlModel.Proofs.CmdHandover
 
 open CmdQueue
 
@@ -73,6 +74,18 @@ theorem C12_timer_is_code :
       ["params cmd,receiver", "cmdId := cmd.GetId()", "s.pending[callId] = call",
        "err := s.SendFunc(cmd, receiver)", "case <-call.Done",
        "case <-time.After(cmd.GetResponseTimeout())"] := by decide
+
+/-- The consumer goroutine of `CommandQueue.Start`: an endless loop around a
+    one-clause select (no default) that receives from the queue channel; under
+    the queue lock `commit`, then the answer goes to the caller's channel in a
+    statement of its own — a plain BLOCKING send, no select around it, no default,
+    no timeout —, and only then the lock is released and the loop goes round
+    (`qstep`: `take c` is the only way out of the hand-over, `start` is disabled
+    meanwhile). -/
+theorem C12_handover_is_code :
+    Gen.C12.startLoop =
+      ["for", "select cases=1 default=false", "case entry, more := <-m.q", "m.Lock()",
+       "response, err := m.commit(entry.cmd)", "stmt entry.callback <- response", "m.Unlock()"] := by decide
 
 /-- What the model's `singleTarget` yields for a tabulated row. -/
 def C12_singleView (id : Nat) (targets : List Nat) (tmo : Nat) (args : List (Nat × Nat)) (recv : Nat) :
@@ -432,6 +445,93 @@ theorem C12_reply_not_lost (cmds : List Cmd) (h : wfCfg cmds = true) (pre mid po
       · obtain ⟨r'', hr⟩ := early _ h0; cases hr
       · exact h0
 
+/-! ## the hand-over of the answer waits for the caller
+
+`qrun cmds qof qinit qs`: any interleaving of base-layer steps (with `start`
+subject to the queue discipline), callers reaching their receive (`listen`),
+rendezvous (`take`) and observer probes; `qof` assigns every command its queue. -/
+
+/-- The queue layer only removes behaviours: its states project to states the
+    servent/commit layer reaches under some schedule, so every theorem above
+    about `run cmds init sched` holds for them too. -/
+theorem C12_handover_refines (cmds : List Cmd) (qof : Nat → Nat) (qs : List QStep) :
+    ∃ sched, (qrun cmds qof qinit qs).base = run cmds init sched :=
+  base_reachable cmds qof qs qinit
+
+/-- A queue waits for its caller. While a command has been dequeued and its
+    answer not taken — `commit` still running, or the answer on offer and the
+    caller not (yet) receiving — no other command of the same queue is between
+    dequeue and hand-over: every other dequeued command of that queue has been
+    answered; in particular nothing behind it is committed. -/
+theorem C12_queue_waits_for_caller (cmds : List Cmd) (h : wfCfg cmds = true) (qof : Nat → Nat) (qs : List QStep)
+    (c c' : Nat) (hne : c ≠ c') (hq : qof c = qof c')
+    (hst : (qrun cmds qof qinit qs).base.started c = true) (hnt : (qrun cmds qof qinit qs).taken c = false)
+    (hst' : (qrun cmds qof qinit qs).base.started c' = true) :
+    (qrun cmds qof qinit qs).taken c' = true ∧
+      ∀ p, ((qrun cmds qof qinit qs).base.call (c', p)).pc ≠ .registered ∧
+           ((qrun cmds qof qinit qs).base.call (c', p)).pc ≠ .waiting := by
+  have inv := qinv_run h qs qinit (qinv_init cmds qof)
+  have ht := inv.MX c c' hne hq hst hnt hst'
+  refine ⟨ht, fun p => ?_⟩
+  obtain ⟨res, hres⟩ := inv.TR c' ht
+  exact no_caller_left h inv.I1 inv.I2 (inv.RC c' res hres).2 p
+
+/-- The answer is never dropped, however late the caller listens. Once `commit`
+    of `c` has returned `res` (it is in the callback log) and the caller has not
+    taken it, NOTHING that happens without the caller's receive — any steps of
+    anybody, arrivals of any responses, other callers listening and being
+    served, probes — takes it off offer; and when the caller then reaches its
+    receive, the rendezvous hands it exactly `res`, and nothing else ever. -/
+theorem C12_answer_waits_for_listener (cmds : List Cmd) (h : wfCfg cmds = true) (qof : Nat → Nat)
+    (qs later : List QStep) (c : Nat) (res : Result)
+    (hcb : (c, res) ∈ (qrun cmds qof qinit qs).base.callbacks)
+    (hnt : (qrun cmds qof qinit qs).taken c = false) (hlater : QStep.take c ∉ later) :
+    (qrun cmds qof qinit (qs ++ later)).taken c = false ∧
+    offered (qrun cmds qof qinit (qs ++ later)) c = some res ∧
+    (qrun cmds qof qinit (qs ++ later ++ [.listen c, .take c])).taken c = true ∧
+    ∀ res', (c, res') ∈ (qrun cmds qof qinit (qs ++ later ++ [.listen c, .take c])).received ↔ res' = res := by
+  have inv := qinv_run h qs qinit (qinv_init cmds qof)
+  have hoff : offered (qrun cmds qof qinit qs) c = some res := offered_of_mem inv.I2.CB2 hcb
+  obtain ⟨h1, h2⟩ := offered_waits (cmds := cmds) (qof := qof) later _ hoff hnt hlater
+  rw [← qrun_append] at h1 h2
+  have inv1 := qinv_run h (qs ++ later) qinit (qinv_init cmds qof)
+  have hrun : qrun cmds qof qinit (qs ++ later ++ [.listen c, .take c]) =
+      qstep cmds qof (qstep cmds qof (qrun cmds qof qinit (qs ++ later)) (.listen c)) (.take c) := by
+    rw [qrun_append]; rfl
+  rw [hrun]
+  have inv3 := qinv_step h (qinv_step h inv1 (.listen c)) (.take c)
+  generalize qrun cmds qof qinit (qs ++ later) = s1 at h1 h2 inv1 inv3 ⊢
+  have hoff2 : offered (qstep cmds qof s1 (.listen c)) c = some res := offered_step s1 (.listen c) h1
+  have h3 : qstep cmds qof (qstep cmds qof s1 (.listen c)) (.take c) =
+      { qstep cmds qof s1 (.listen c) with
+        taken := upd (qstep cmds qof s1 (.listen c)).taken c true,
+        received := (qstep cmds qof s1 (.listen c)).received ++ [(c, res)] } :=
+    take_enabled (by simp [qstep]) (by simpa [qstep] using h2) hoff2
+  refine ⟨h2, h1, by rw [h3]; simp, ?_⟩
+  intro res'
+  constructor
+  · intro hm
+    have hcb' := (inv3.RC c res' hm).2
+    have hcb0 : (c, res) ∈ (qstep cmds qof (qstep cmds qof s1 (.listen c)) (.take c)).base.callbacks := by
+      rw [h3]; exact offered_mem h1
+    have e1 := offered_of_mem inv3.I2.CB2 hcb'
+    have e2 := offered_of_mem inv3.I2.CB2 hcb0
+    rw [e1] at e2; exact Option.some.inj e2
+  · intro e; subst e
+    rw [h3]; exact List.mem_append_right _ (List.mem_singleton.mpr rfl)
+
+/-- What an observer of ANY execution of the model records — send calls, callers
+    starting to listen, answers arriving, probes of where the consumer is once
+    `commit` has returned — satisfies the hand-over clause of Spec.C12
+    (`handoverOk`, evaluated by the driver on the real code's trace): an answer
+    arrives only at a caller that listens; a probe finds the consumer `held`
+    unless the caller has its answer; and while a dequeued command's caller has
+    not started to listen, the send function is entered for no other command of
+    its queue. `qs` = the queue of each command. -/
+theorem C12_handover_ok (cmds : List Cmd) (h : wfCfg cmds = true) (qs : List Nat) (sched : List QStep) :
+    handoverOk qs (qtrace cmds (queueOf qs) qinit sched) = true :=
+  handover_trace h qs _ sched qinit [] (qinv_init cmds _) traceInv_init
+
 /-! ## non-vacuity
 
 Two commands (ids 7 and 9) over targets {1,2,3} / {1}: while command 0 is in
@@ -478,25 +578,84 @@ reported as a timeout. -/
 
 def C12_demo2 : List Cmd := [{ id := 100, targets := [2], tmo := 30, args := [(2, 9)] }]
 
-example : Spec C12_demo2
+example : Spec C12_demo2 [0]
     [.send 0 2 true 30 9, .resp ⟨100, 2, 1, false⟩, .ret ⟨100, 2, 1, false⟩ true,
      .done 0 (.single (.own ⟨100, 2, 1, false⟩))]
     [(0, .single (.own ⟨100, 2, 1, false⟩))] = true := by decide
 
-example : Spec C12_demo2
+example : Spec C12_demo2 [0]
     [.send 0 2 true 90000 9, .resp ⟨100, 2, 1, false⟩, .ret ⟨100, 2, 1, false⟩ true,
      .done 0 (.single (.own ⟨100, 2, 1, false⟩))]
     [(0, .single (.own ⟨100, 2, 1, false⟩))] = false := by decide
 
-example : Spec C12_demo2
+example : Spec C12_demo2 [0]
     [.send 0 2 true 30 9, .resp ⟨100, 2, 1, false⟩, .ret ⟨100, 2, 1, false⟩ true,
      .done 0 (.single (.synth 100 .timeout))]
     [(0, .single (.synth 100 .timeout))] = false := by decide
 
 /-- … while a reply whose `ProcessResponse` did NOT provably return before the
     timer could fire may have come too late: accepted. -/
-example : Spec C12_demo2
+example : Spec C12_demo2 [0]
     [.send 0 2 true 30 9, .resp ⟨100, 2, 1, false⟩, .ret ⟨100, 2, 1, false⟩ false,
      .done 0 (.single (.synth 100 .timeout))]
     [(0, .single (.synth 100 .timeout))] = true := by decide
 
+
+/-! The hand-over. Two commands on ONE queue (ids 7 and 9): command 0's only
+target fails at send, so `commit` returns at once — nobody listens yet. The
+answer stays on offer while command 1 cannot even be dequeued (`start 1` is a
+no-op), a late reply is dropped, the OTHER caller starts to listen; then
+command 0's caller listens, takes its answer, and command 1 runs. -/
+
+def C12_demo3 : List Cmd := [{ id := 7, targets := [1] }, { id := 9, targets := [2] }]
+
+def C12_demo3_sched : List QStep :=
+  [.base (.start 0), .base (.register (0, 0)), .base (.sendFail (0, 0)), .base (.complete 0), .probe 0,
+   .base (.start 1), .base (.register (1, 0)), .base (.deliver ⟨7, 1, 5, false⟩), .listen 1, .take 1, .probe 0,
+   .listen 0, .take 0, .probe 0,
+   .base (.start 1), .base (.register (1, 0)), .base (.sendOk (1, 0)), .base (.deliver ⟨9, 2, 6, false⟩),
+   .base (.recv (1, 0)), .base (.complete 1), .take 1]
+
+example : qtrace C12_demo3 (fun _ => 0) qinit C12_demo3_sched =
+    [.send 0 1 false 0 0, .probe 0 .held, .listen 1, .probe 0 .held, .listen 0, .done 0 (.single (.synth 7 .send)),
+     .probe 0 .passed, .send 1 2 true 0 0, .done 1 (.single (.own ⟨9, 2, 6, false⟩))] := by decide
+
+example : (qrun C12_demo3 (fun _ => 0) qinit C12_demo3_sched).received =
+    [(0, .single (.synth 7 .send)), (1, .single (.own ⟨9, 2, 6, false⟩))] := by decide
+
+/-- … and on two DIFFERENT queues the second command does not wait. -/
+example : ((qrun C12_demo3 id qinit (C12_demo3_sched.take 7)).base.call (1, 0)).pc = .registered ∧
+    ((qrun C12_demo3 (fun _ => 0) qinit (C12_demo3_sched.take 7)).base.call (1, 0)).pc = .idle := by decide
+
+/-- `C12_answer_waits_for_listener` instantiated: the answer of command 0 is
+    on offer after five steps and still is after the next six. -/
+example : offered (qrun C12_demo3 (fun _ => 0) qinit (C12_demo3_sched.take 5 ++ (C12_demo3_sched.drop 5).take 6)) 0 =
+    some (.single (.synth 7 .send)) :=
+  (C12_answer_waits_for_listener C12_demo3 (by decide) (fun _ => 0) (C12_demo3_sched.take 5)
+    ((C12_demo3_sched.drop 5).take 6) 0 (.single (.synth 7 .send)) (by decide) (by decide) (by decide)).2.1
+
+/-! What the hand-over clause of Spec.C12 accepts and rejects (one queue; command
+0: id 100, target 2 fails at send; command 1: id 101, no targets). -/
+
+def C12_demo4 : List Cmd := [{ id := 100, targets := [2] }, { id := 101, targets := [] }]
+
+/-- accepted: held until the late listener comes, then both answers -/
+example : Spec C12_demo4 [0, 0]
+    [.send 0 2 false 0 0, .probe 0 .held, .listen 0, .done 0 (.single (.synth 100 .send)), .done 1 .nil]
+    [(0, .single (.synth 100 .send)), (1, .nil)] = true := by decide
+
+/-- rejected: the consumer is found idle, nothing ever arrived for command 0 -/
+example : Spec C12_demo4 [0, 0]
+    [.send 0 2 false 0 0, .done 1 .nil, .probe 0 .idle, .listen 0]
+    [(1, .nil)] = false := by decide
+
+example : handoverOk [0, 0] [.send 0 2 false 0 0, .done 1 .nil, .probe 0 .idle, .listen 0] = false := by decide
+
+/-- rejected: a command of the same queue is sent while command 0's caller does not listen yet
+    (three commands; command 2 has target 3) — even though every answer arrives in the end -/
+example : handoverOk [0, 0, 0]
+    [.send 0 2 false 0 0, .send 2 3 true 0 0, .listen 0, .done 0 (.single (.synth 100 .send))] = false := by decide
+
+/-- … which is fine on another queue -/
+example : handoverOk [0, 0, 1]
+    [.send 0 2 false 0 0, .send 2 3 true 0 0, .listen 0, .done 0 (.single (.synth 100 .send))] = true := by decide
